@@ -60,6 +60,10 @@ let parse_msg (spec : string) : msg =
      | "pos", [fld; v; raw; wf] -> MChangeParam (bz f, bz key, PVpos (n_of_int (int_of_string fld), zo v), bz raw, wf = "1")
      | "auth", [fld; v; raw; wf] -> MChangeParam (bz f, bz key, PVauth (n_of_int (int_of_string fld), zo v), bz raw, wf = "1")
      | "addr", [a; raw; wf] -> MChangeParam (bz f, bz key, PVaddr (bz a), bz raw, wf = "1")
+     | "acl", [pairs; raw; wf] ->
+       let l = List.map (fun kv -> match String.split_on_char '=' kv with [k; a] -> (bz k, bz a) | _ -> failwith "acl pair")
+           (List.filter (fun x -> x <> "") (String.split_on_char ';' pairs)) in
+       MChangeParam (bz f, bz key, PVacl l, bz raw, wf = "1")
      | "raw", [_; raw; wf] -> MChangeParam (bz f, bz key, PVraw, bz raw, wf = "1")
      | _ -> failwith ("bad param spec " ^ spec))
   | _ -> failwith ("bad msg spec " ^ spec)
